@@ -345,6 +345,12 @@ func parsePossibilityNumber(input *input, version *VersionRelation) error {
 			return errors.New("Oh no. Reached EOF before Number finished")
 		case ')':
 			return nil
+		case ' ', '\t', '\r', '\n':
+			eatWhitespace(input)
+			if input.Peek() != ')' {
+				return errors.New("Trailing garbage after a Version number")
+			}
+			return nil
 		}
 		version.Number += string(input.Next())
 	}
